@@ -18,7 +18,27 @@ def main():
     ap.add_argument("--tier", default=os.environ.get("VERIF_TIER", "quick"), choices=["quick", "thorough"])
     ap.add_argument("--seed", type=int, default=int(os.environ.get("VERIF_SEED", "0")))
     ap.add_argument("--replay", default=None)
+    ap.add_argument("--child", action="store_true")
     args = ap.parse_args()
+    if not args.child:
+        # run the real work in a child process: an interpreter crash (a segfault inside NumPy /
+        # Numba on the code under test) must still end in a verdict with the failing input
+        import subprocess
+        cur = os.path.join(common.REPLAY_DIR, f".current-{args.prop}.json")
+        os.makedirs(common.REPLAY_DIR, exist_ok=True)
+        if os.path.exists(cur):
+            os.remove(cur)
+        rc = subprocess.call([sys.executable, os.path.abspath(__file__)] + sys.argv[1:] + ["--child"])
+        if rc not in (0, 1):
+            crash = os.path.join(common.REPLAY_DIR, f"{args.prop}-{args.tier}-{args.seed}-crash.json")
+            case = json.load(open(cur)) if os.path.exists(cur) else None
+            json.dump({"property": args.prop, "tier": args.tier, "seed": args.seed, "kind": "oracle",
+                       "signature": "interpreter-crash", "what": f"the Python process running the implementation died with status {rc} while executing this case",
+                       "case": case}, open(crash, "w"), indent=1)
+            tail = "" if case is not None else " no-failing-input-found"
+            print(f"VIOLATION property={args.prop} replay={crash}{tail}")
+            sys.exit(1)
+        sys.exit(rc)
     mod = importlib.import_module(f"harness.props.{args.prop}")
     replay = None
     if args.replay:
